@@ -2,6 +2,7 @@ package main
 
 import (
 	"fmt"
+	"runtime/debug"
 	"strings"
 	"time"
 
@@ -132,6 +133,12 @@ func scenarioC04(c *hlib.RunCtx) *hlib.Violation {
 	realUnmap = windowsOn && t.Bool(1, 2)
 	defer func() { realUnmap = false }()
 
+	// Build metadata of varying length (every residue of the 32-byte header
+	// rounding, incl. metadata that fills its header exactly).
+	if t.Bool(1, 2) {
+		w.bi = &debug.BuildInfo{GoVersion: "go1.23.1", Path: "example.com/" + strings.Repeat("p", 1+t.Draw(70)) + "/prog",
+			Main: debug.Module{Path: "example.com/prog", Version: "v1.2.3"}}
+	}
 	nprocs := 2 + t.Draw(3)
 	pool := namePool(t, 2+t.Draw(6), false)
 	// In a third of the runs enough long names to fill the first page, so that
